@@ -111,3 +111,36 @@ end Ctl
     estimate is NaN is never accepted; `Model/RadauNum.lean`, tied by X-radaunum) -/
 theorem c04_radau_nan_estimate {α : Type} [Num α] (L : RadauNum.NLits α) (e : α) (h : Num.isNaN e = true) :
     RadauNum.errGuard L e = L.inf := RadauNum.errGuard_nan L e h
+
+/-! ### a step whose candidate state is not finite is never accepted (fixes 13bc1bc, 38d4d3b)
+
+`finiteGuard` replaces the error estimate by `1.0 / 0.0` when the candidate state has a non-finite component.  So in any
+arithmetic in which `1/0 ≤ 1` is false (IEEE: `inf ≤ 1` is false; the driver prints this comparison at `Float` in its
+self-test) an accepted step has a finite new state — "Success with non-finite states" cannot arise from an accepted step. -/
+namespace Ctl
+variable {α : Type} [Num α] {n : Nat}
+
+theorem c04_finiteGuard_accept (v : Vec α n) (e one : α) (hinf : ¬ ((Num.one / Num.zero : α) ≤ one))
+    (h : finiteGuard v e ≤ one) : vecFinite v = true := by
+  unfold finiteGuard at h
+  by_cases hv : vecFinite v = true
+  · exact hv
+  · rw [if_neg hv] at h; exact absurd h hinf
+
+/-- DOPRI5: the error test passes only for a finite candidate state `y1` -/
+theorem c04_accept_finite_dopri5 (atol rtol : Vec α n) (S : D5S α n) (y : Vec α n) (h one : α)
+    (hinf : ¬ ((Num.one / Num.zero : α) ≤ one)) (hacc : (dopri5Kernel atol rtol).err S y h ≤ one) : vecFinite S.y1 = true :=
+  c04_finiteGuard_accept S.y1 _ one hinf hacc
+
+/-- DOP853: the error test passes only for a finite candidate state `k5` -/
+theorem c04_accept_finite_dop853 (atol rtol : Vec α n) (S : D8S α n) (y : Vec α n) (h one : α)
+    (hinf : ¬ ((Num.one / Num.zero : α) ≤ one)) (hacc : (dop853Kernel atol rtol).err S y h ≤ one) : vecFinite S.c.k5 = true :=
+  c04_finiteGuard_accept S.c.k5 _ one hinf hacc
+
+/-- RK23: the error test passes only for a finite candidate state `yt` -/
+theorem c04_accept_finite_rk23 {σ : Type} (P : R23Params α n) (f : Rhs α n) (s : R23State σ α n) (h : α)
+    (hinf : ¬ ((Num.one / Num.zero : α) ≤ P.one)) (hacc : (rk23Trial P f s h).err ≤ P.one) :
+    vecFinite (rk23Trial P f s h).o.yt = true :=
+  c04_finiteGuard_accept _ _ P.one hinf hacc
+
+end Ctl
